@@ -15,6 +15,10 @@ CLAIMED = {
    text='Coq theorems (unbounded order/dims/ranks): the rank-rank matrix accumulated by tensordot equals the sum over all contracted row/column indices of the product of the two chains (all modes); full value theorem for mode last-first (partial and complete); rank_transpose, concatenate, rank_tensordot, diag, core merging (qtt2tt) and split-then-merge identity (tt2qtt, SVD value conjunct). All 12 tensordot branches, squeeze, tt2qtt, build_core are modelled and tied to /repo by exact differential execution (SVD tape for tt2qtt); float side check against numpy.tensordot/reshape.',
    note='PARTIAL: composed value statements for modes last-last/first-last/first-first, squeeze and build_core are covered by model+correspondence+side check, not by a theorem. Trusted: Coq kernel, harness, NumPy as dense oracle, SVD value conjunct.',
    technique='Coq proof (index-sum algebra over chains) + exact model-vs-code correspondence', design='6 C02'),
+ 'C14': dict(
+   text='Coquelicot is_derive theorems, for all parameters and points, over the function bodies REGENERATED from transform.py on every run (fail-closed ast translator): first and second derivatives of the eight closed-form families, zero off-coordinate partials, gradient/Hessian assembly; the translator is validated on every run against the real methods; central-difference side check for all nine families incl. Bspline.',
+   note='Trusted: Coq kernel; stdlib real-number axioms (sig_forall_dec, sig_not_dec), functional_extensionality_dep, classic (via Reals/Coquelicot); the translator; scipy legendre/BSpline and NumPy ufunc semantics as oracles. Bspline and vectorised evaluation are side-check only.',
+   technique='translator-regenerated model + Coq/Coquelicot derivative proofs', design='6 C14'),
 }
 NOT_YET = {}
 ALL = ['C%02d' % i for i in range(1, 21)]
